@@ -109,6 +109,28 @@ def after_io_fault(world, ctx):
     f = [x for x in ctx["fired"] if x.mode in ("pre", "post")][0]
     world.probe("ioerror-injected")
     world.evals += 1
+    if world.prop == "C16" and k in INSERTS:
+        # C16 also binds an insert that fails: it still only appends and
+        # still reads nothing, however many points are stored
+        pre = ctx["pre_bytes"] or b""
+        post = world.disk.peek(DB_PATH) or b""
+        if not post.startswith(pre):
+            world.fail({"C16"}, "failed-insert-not-a-prefix",
+                       "%s failed at %s and rewrote existing bytes"
+                       % (k, f.fired), i)
+        for st in ctx["steps"]:
+            if st[3] == "read":
+                world.fail({"C16"}, "read-during-failed-insert",
+                           "%s failed at %s and read existing data "
+                           "(%d-byte read request, %d points stored)"
+                           % (k, f.fired, st[5],
+                              len(ctx["pre_model"].points)), i)
+            if st[4] != "primary":
+                world.fail({"C16"}, "failed-insert-foreign-inode",
+                           "%s failed at %s and touched %s"
+                           % (k, f.fired, st[4]), i)
+        world.nontrivial.add(("failed-insert", f.fired, f.mode,
+                              len(ctx["pre_model"].points)))
     inj = getattr(world.disk, "last_injected", None)
     states = admissible_after(world, ctx)
     if k in READS or k == "close":
